@@ -51,6 +51,7 @@ def run(ctx):
     try:
         g1(F, res)
         g2(F, res)
+        g2b(F, res)
         g3(F, res)
         g4(F, res)
     except EvalError as e:
@@ -180,6 +181,40 @@ def g2(F, res):
             res.ok('setter/' + fn, {'setter': fn, 'stores': ('!' if negated else '') + 'flag', 'into': field})
         else:
             res.bad('setter/' + fn, 'ModuleConfig::%s(flag) must store %sflag into %s' % (fn, '!' if negated else '', field))
+
+
+def g2b(F, res):
+    """each switch is written by its own setter only (documented implication: generate_dwarf also turns on
+    preserve_code_transform): no other method of ModuleConfig may flip a switch behind the caller's back"""
+    gate_fields = {field: fn for fn, field, _ in SETTERS}
+    allowed_extra = {('generate_dwarf', 'preserve_code_transform')}
+    writers = {}
+    n = 0
+    for p, body in F.mir.items():
+        if not p.startswith('module::config::ModuleConfig::') or '{closure' in p:
+            continue
+        meth = p.split('::')[-1]
+        if meth in ('new', 'default', 'clone', 'fmt'):
+            continue
+        for b in body['blocks']:
+            for st in b['stmts']:
+                if st.get('s') != 'Assign':
+                    continue
+                pl = st['p']
+                flds = [x for x in pl[1:] if isinstance(x, str) and x.startswith('.')]
+                if len(flds) == 1 and pl[-1] == flds[0] and 'ModuleConfig' in (body['locals'][pl[0]]['ty'] if pl[0] < len(body['locals']) else ''):
+                    n += 1
+                    writers.setdefault(flds[0][1:], set()).add(meth)
+    for field, own in sorted(gate_fields.items()):
+        ws = writers.get(field, set())
+        extra = {m for m in ws if m != own and (m, field) not in allowed_extra}
+        if extra:
+            res.bad('setter/cross-talk/' + field, 'the switch `%s` is also written by ModuleConfig::%s: calling that method silently changes '
+                    'what `%s` configured' % (field, sorted(extra), own))
+        elif own in ws:
+            res.ok('setter/only-writer/' + field, {'switch': field, 'written_by': sorted(ws)}, nontrivial=False)
+        else:
+            res.bad('setter/only-writer/' + field, 'no setter writes the switch `%s`' % field)
 
 
 def g3(F, res):
